@@ -16,6 +16,7 @@ RULE = ("constraint-free programs from the typed generator in well-typed mode (p
 RULE += (" " + 'Also: a dynamic-heterogeneity family - 34 program shapes x every ordered pair of the four scalar types - in which select arms / defaults, list elements, callback results, copy overrides, module parameters and closure results of DIFFERENT types occur and only the one that is taken is used, according to its own type; record functions reading up to four fields of an untyped parameter; callbacks and functions whose parameters are named like caller bindings of other types (also inside composite literals); tuples whose fields are named like caller bindings.')
 RULE += (" " + 'Nine further heterogeneity shapes: a reduce that grows its accumulator (copy adds a field, list gets other elements), select arms of unknown shape next to candidate sets, modules instantiated with wider tuples than their defaults, type-guarded select arms in functions called with several types.')
 RULE += (" " + 'Five more shapes: modules with 2..3 parameters of which one (first, middle, last, a list of tuples) is given something wider than its default.')
+RULE += (" " + 'Four more shapes: a copy that overrides a field with a tuple of other fields (or NULL, or twice), reached as a list element or a select arm.')
 
 NONTRIVIAL = {"map", "filter", "reduce", "call", "sel", "module", "select", "copy", "fmt", "fmt1", "range", "cast"}
 
@@ -94,6 +95,13 @@ def hetero_programs(r):
             P("module-2-params-list-of-wider-tuples", "let m = module {xs = [{a = %s}], y = 1} => (r) {let r = mod.xs;}; let o = m{xs = [{a = %s, b = %s}], y = 2}; let v = %s;"
               % (b, b, a, ua % "(o.0).b"))
             P("module-2-params-only-wider-one-given", "let m = module {x = {a = %s}, y = 1} => (r) {let r = mod.x;}; let v = %s;" % (b, ua % ("m{x = {a = %s, b = %s}}.b" % (b, a))))
+            # a copy that overrides a field with a tuple of OTHER fields, reached through a list element or a select arm
+            P("copy-override-other-fields-through-list", "let base = {opts = {port = %s}}; let d = base{opts = {host = %s, tls = true}}; let l = [d, d]; let v = %s;"
+              % (b, a, ua % "l.0.opts.host"))
+            P("copy-override-other-fields-through-select", "let base = {opts = {port = %s}}; let d = base{opts = {host = %s}}; let s = select (\"k\") => {k = d, j = base}; let v = %s;"
+              % (b, a, ua % "s.opts.host"))
+            P("copy-override-other-type-through-list", "let base = {x = %s}; let d = base{x = NULL}; let e = {x = %s}; let l = [base, e]; let v = %s;" % (b, a, ua % "l.1.x"))
+            P("copy-override-twice-through-list", "let base = {opts = {port = %s}}; let d = base{opts = {a = 1}}{opts = {host = %s}}; let l = [d]; let v = %s;" % (b, a, ua % "l.0.opts.host"))
             P("is-guarded-function", "let f = func (x) => select (x is \"%s\") => {true = %s, false = 0}; let r = f(%s); let w = f(%s);" % (A, ua % "x", b, a))
             P("is-guarded-function-default", "let f = func (x) => select (x is \"%s\", 0) => {true = %s}; let r = f(%s); let w = f(%s);" % (A, ua % "x", b, a))
     return out
